@@ -36,7 +36,7 @@ def gen_case(rng, tier, idx):
     for i in range(n):
         tick = rng.choice([1.0, 0.5, 0.1, 0.01])
         cfg["S%d" % i] = {"class": "Market", "tickSize": tick, "marketPrice": rng.choice([100, 300, 2000]) * tick,
-                          "outstandingShares": rng.choice([1, 100, 1000, 2500, 7777, 1000000]) if rng.random() < 0.85 else 1000,
+                          "outstandingShares": rng.choice([1, 100, 1000, 2500, 7777, 1000000, 3 * 10 ** 18, 4 * 10 ** 18, 5 * 10 ** 18]) if rng.random() < 0.85 else 1000,
                           "fundamentalVolatility": rng.choice([0.0, 0.005, 0.02]),
                           "fundamentalDrift": rng.choice([0.0, 0.001])}
         cfg["simulation"]["markets"].append("S%d" % i)
